@@ -26,7 +26,11 @@ def generate(rng, n, tier, stats):
             i = rng.randrange(nd)
             q = rng.choice([50, 25, [25, 50], [0, 100, 50]])
             stats['function']['percentile'] += 1
-            cases.append({'ins': [a], 'ops': [['percentile', q, a['dims'][i] if rng.random() < 0.5 else i]]})
+            r_ = a['dims'][i] if rng.random() < 0.5 else i
+            if nd >= 2 and not isinstance(q, list) and rng.random() < 0.35:
+                r_ = rng.sample(a['dims'], rng.randint(2, nd))       # "a tuple of dimensions reduces over all of them at once"
+                stats['percentile_axis']['tuple'] += 1
+            cases.append({'ins': [a], 'ops': [['percentile', q, r_]]})
             continue
         name = rng.choice(FUNCS)
         dtype = rng.choice(['f', 'f', 'f', 'i', 'b'] if name in ('all', 'any', 'sum', 'min', 'max') else ['f', 'f', 'i'])
@@ -115,10 +119,16 @@ def execute(c):
 def oracle_percentile(case, res):
     a = case['ins'][0]; _, q, r = case['ops'][0]
     arr = mk_array(a); obs = arr_json(arr)
-    pos = a['dims'].index(r) if isinstance(r, str) else r
-    if res[0] == 'err': return 'percentile raised %s' % res[1]
-    want = np.asarray(np.percentile(arr.values, q, axis=pos))
-    rest = [i for i in range(len(a['dims'])) if i != pos]
+    if isinstance(r, list):
+        poss = tuple(a['dims'].index(x) for x in r)
+        if res[0] == 'err': return 'percentile over the dimensions %r raised %s' % (r, res[1])
+        want = np.asarray(np.percentile(arr.values, q, axis=poss))
+        rest = [i for i in range(len(a['dims'])) if i not in poss]; pos = None
+    else:
+        pos = a['dims'].index(r) if isinstance(r, str) else r
+        if res[0] == 'err': return 'percentile raised %s' % res[1]
+        want = np.asarray(np.percentile(arr.values, q, axis=pos))
+        rest = [i for i in range(len(a['dims'])) if i != pos]
     g = res[1]
     if g['t'] == 'cell':
         return None if (not rest and not isinstance(q, list) and abs(float(g['v']) - float(want)) < 1e-9) else 'scalar result'
